@@ -6,14 +6,19 @@
                               handler other than JumpToStage (so within one loop iteration it is started at most once:
                               the start commit requires NOT_STARTED, see C03_start_stage_only) — corollary of
                               C06_commit_legal and the transition table
-   OPEN (correspondence + monitors only): C02_outcome (same outcome as in-order exactly-once delivery) and
-     C02_no_reexec (a task with a recorded result is not executed again) need the token invariant.
+     C02_completed_survives   over every non-jump step (any delivery, cut, sweep, request) every completed workflow /
+                              stage / task status is kept
+     C02_no_reexec            the task a step executes was RUNNING when the handler read it: a task whose result has
+                              been recorded (any status other than RUNNING) is never the one executed; with
+                              C02_completed_survives it stays recorded until a jump re-arms it
+   OPEN (correspondence + monitors only): C02_outcome (same outcome as in-order exactly-once delivery) needs the
+     token invariant.
      KNOWN FINDING F10: a stale CompleteTask(REDIRECT) wedges the next loop iteration (known_findings.json). *)
 From Coq Require Import List Bool Arith ZArith.
 Import ListNotations.
 From Stab.model Require Import Base StatusM Readiness StageStat Engine.
 From Stab.gen Require Import Gen_Config.
-From Stab.proofs Require Import StatusP EngineP EngineLegal EngineEx.
+From Stab.proofs Require Import StatusP EngineP EngineLegal EngineSteps EngineEx.
 
 Theorem C02_dup_noop : forall orc s id do_ack r,
   find_row s id = Some r -> (q_attempts r < queue_max_attempts)%Z -> mem_nat id (w_processed s) = true ->
@@ -37,6 +42,15 @@ Proof.
   rewrite H3 in Hc. apply into_not_started in Hc. tauto.
 Qed.
 
+Theorem C02_completed_survives : forall orc s a,
+  running_task_in_running_stage s -> ~ delivers_jump s a -> completed_kept s (step orc s a).
+Proof. exact completed_survives_step. Qed.
+
+Theorem C02_no_reexec : forall orc s a i t st tk,
+  get_stage s i = Some st -> nth_error (s_tasks st) t = Some tk -> t_status tk <> RUNNING ->
+  g_execs (step orc s a) = g_execs s \/ exists p, g_execs (step orc s a) = p :: g_execs s /\ p <> (i, t).
+Proof. exact recorded_result_not_reexecuted. Qed.
+
 (* non-vacuity: redeliver the already-processed StartWorkflow row (left un-acked) late in a run *)
 Example C02_witness :
   let s1 := run ok_oracle ex_chain [Submit; Deliver 1 false; Deliver 2 true; Deliver 3 true] in
@@ -47,3 +61,5 @@ Proof. vm_compute. repeat split. Qed.
 
 Print Assumptions C02_dup_noop.
 Print Assumptions C02_no_rearm_without_jump.
+Print Assumptions C02_completed_survives.
+Print Assumptions C02_no_reexec.
